@@ -52,7 +52,7 @@ def cases(draw):
             l = max(sp["links"], key=lambda x: x["N"])
         tgt = l["id"]
         sub = sorted(draw(st.sets(st.integers(0, l["N"] - 1), min_size=0 if rel == "vsl-neutral" else 1, max_size=l["N"])))
-        l["vsl"], l["alpha"] = sub, draw(fl(0, 0.5))
+        l["vsl"], l["alpha"] = sub, draw(st.one_of(fl(0, 0.5), fl(-0.3, 0.0)))  # also enforced limits (negative alpha)
         if rel == "vsl-neutral":
             state[tgt]["v_ctrl"] = [math.inf] * len(sub)
         else:
